@@ -133,7 +133,7 @@ def run(ctx):
                         "a response that was lost in the kill counts as unacknowledged; both outcomes are accepted for it",
                         "redelivery after restart is observed on the pull route (client-chosen 1 s lease); for deliver routes presence and state are checked",
                         "memory backend is out of scope of this property (restart on the same database)"]
-    vf.write_evidence(ctx, "model_checking", RULE, exhaustive=False)
+    vf.write_evidence(ctx, "fault_enumeration", RULE, exhaustive=False)
 
 
 def replay(ctx, path):
